@@ -166,6 +166,40 @@ def check_raw(recipe) -> list[Fail]:
                 if not should_fail:
                     h.view[k] = v
                     now[k] = v
+            elif name == "put_ioerror":
+                # the k-th write() of this put raises OSError (disk full / I/O error): the put fails and must leave everything as it was
+                if h.obj is None or not h.open or h.mode != "a":
+                    continue
+                k, v = KEYS[op[2]], VALS[op[3]]
+                if k in h.view or len(k) > 255:
+                    continue
+                real = h.obj._stream
+
+                class _Failing:
+                    def __init__(self, real, at):
+                        self._r, self._n, self._at = real, 0, at
+
+                    def write(self, b):
+                        if self._n == self._at:
+                            self._n += 1
+                            raise OSError(28, "injected: no space left on device")
+                        self._n += 1
+                        return self._r.write(b)
+
+                    def __getattr__(self, nm):
+                        return getattr(self._r, nm)
+
+                h.obj._stream = _Failing(real, op[4] % 3)
+                try:
+                    h.obj.put(k, v)
+                    raised = None
+                except OSError as e:
+                    raised = e
+                finally:
+                    h.obj._stream = real
+                if raised is None:
+                    fails.append(Fail("raw:put-swallowed-io-error", f"step {step}"))
+                    break
             elif name == "get":
                 if h.obj is None:
                     continue
@@ -247,6 +281,9 @@ def classify_raw(recipe):
     keys_put = set()
     failed = False
     for op in ops:
+        if op[0] == "put_ioerror":
+            failed = True
+            continue
         if op[0] == "put":
             st_ = open_state.get(op[1])
             k = op[2]
@@ -313,6 +350,7 @@ def strat_raw(tier):
         st.tuples(st.just("put"), h, st.integers(0, len(KEYS) - 1), st.integers(0, len(VALS) - 1)).map(list),
         st.tuples(st.just("put"), h, st.integers(0, len(KEYS) - 1), st.integers(0, 2)).map(list),
         st.tuples(st.just("get"), h, st.integers(0, len(KEYS) - 1)).map(list),
+        st.tuples(st.just("put_ioerror"), h, st.integers(0, len(KEYS) - 1), st.integers(0, 2), st.integers(0, 2)).map(list),
     )
     return st.fixed_dictionaries(
         {
@@ -525,7 +563,7 @@ LEGS = [
     Leg(
         "raw_rand", check_raw, classify_raw, strategy=strat_raw,
         n={"quick": 1500, "thorough": 40000},
-        rule="random sequences <=30/60 ops, 3 handles, keys incl. binary/255/256 B, values 0..70 kB, headers h1/h2/b0 drawn per file; same non-trivial rule",
+        rule="random sequences <=30/60 ops, 3 handles, keys incl. binary/255/256 B, values 0..70 kB, headers h1/h2/b0 drawn per file, plus puts whose 1st/2nd/3rd stream write raises an injected OSError; same non-trivial rule",
     ),
     Leg(
         "coll", check_coll, classify_coll, strategy=strat_coll,
